@@ -169,10 +169,10 @@ class SLCDriver(CIPDriver):
             UINT.encode(next(self._sequence)),  # transaction identifier
             SLC_FNC_READ,  # function code
             USINT.encode(PCCC_DATA_SIZE[_tag["file_type"]] * _tag["element_count"]),  # byte size
-            USINT.encode(int(_tag["file_number"])),
+            _address_field(int(_tag["file_number"])),
             PCCC_DATA_TYPE[_tag["file_type"]],
-            USINT.encode(int(_tag["element_number"])),
-            USINT.encode(int(_tag.get("pos_number", 0))),  # sub-element number
+            _address_field(int(_tag["element_number"])),
+            _address_field(int(_tag.get("pos_number", 0))),  # sub-element number
         ]
 
         request = SendUnitDataRequestPacket(self._sequence)
@@ -233,10 +233,10 @@ class SLCDriver(CIPDriver):
             UINT.encode(next(self._sequence)),
             SLC_FNC_WRITE,
             USINT.encode(_tag["data_size"] * _tag["element_count"]),
-            USINT.encode(int(_tag["file_number"])),
+            _address_field(int(_tag["file_number"])),
             PCCC_DATA_TYPE[_tag["file_type"]],
-            USINT.encode(int(_tag["element_number"])),
-            USINT.encode(int(_tag.get("pos_number", 0))),
+            _address_field(int(_tag["element_number"])),
+            _address_field(int(_tag.get("pos_number", 0))),
             writeable_value(_tag, value),
         ]
         request = SendUnitDataRequestPacket(self._sequence)
@@ -428,6 +428,14 @@ class SLCDriver(CIPDriver):
                 raise ResponseError(msg)
 
         return file0_data
+
+
+def _address_field(value: int) -> bytes:
+    """
+    DF1 logical address field: a single byte, or ``0xFF`` followed by the value as 2 bytes
+    when it does not fit below 255 (1770-RM516, protected typed logical read/write)
+    """
+    return USINT.encode(value) if value < 255 else b"\xFF" + UINT.encode(value)
 
 
 def _parse_file0(sys0_info, data):
